@@ -30,9 +30,10 @@ pub struct ReqPlan {
     pub close_code: u32,
 }
 
-const METHODS: [Option<&str>; 6] = [Some("CONNECT"), None, Some("GET"), Some("POST"), Some("OPTIONS"), Some("CONNECTX")];
-const SCHEMES: [Option<&str>; 5] = [Some("https"), None, Some("http"), Some("wss"), Some("httpsx")];
-const PROTOCOLS: [Option<&str>; 5] = [Some("webtransport"), None, Some("websocket"), Some("connect-udp"), Some("webtransportx")];
+// method tokens are case-sensitive (RFC 9110 9.1): "connect" is not CONNECT
+const METHODS: [Option<&str>; 11] = [Some("CONNECT"), None, Some("GET"), Some("POST"), Some("OPTIONS"), Some("CONNECTX"), Some("connect"), Some("Connect"), Some("CONN"), Some(" CONNECT"), Some("")];
+const SCHEMES: [Option<&str>; 7] = [Some("https"), None, Some("http"), Some("wss"), Some("httpsx"), Some("https "), Some("")];
+const PROTOCOLS: [Option<&str>; 8] = [Some("webtransport"), None, Some("websocket"), Some("connect-udp"), Some("webtransportx"), Some("web"), Some("webtransport "), Some("")];
 const AUTHS: [Option<&str>; 3] = [Some("10.0.0.1:4433"), None, Some("example.org")];
 const PATHS: [Option<&str>; 3] = [Some("/probe"), None, Some("/probe?x=1")];
 
@@ -529,7 +530,7 @@ pub fn def() -> PropertyDef {
     PropertyDef {
         id: "C18",
         scenarios: vec![Box::new(Typed(C18Req)), Box::new(Typed(C18Status)), Box::new(Typed(C18Hdr))],
-        rule: "raw-request-admission: raw client sends a request whose five pseudo-headers are each right / missing / wrong (exhaustive grid of 6x5x5x3x3 = 1350 combinations, then sampled single-defect requests with arbitrary extra fields and all four QPACK encoding styles); oracle: offered to the application iff CONNECT + https + webtransport + authority + path (authority, path and extras delivered intact); otherwise that stream is refused with STOP_SENDING H3_REQUEST_REJECTED or H3_MESSAGE_ERROR, the application never sees it, and a following valid request on the same connection establishes a session that ends cleanly. raw-response-status: raw server answers the real client's CONNECT with a :status string — quick: every integer 0..1099 and 65436..65535, thorough: every integer 0..65535; plus signs, spaces, empty, non-digits, non-ASCII digits, huge numbers, and no :status at all; oracle: session iff a three-digit integer in 200..=299; 'session rejected' iff three digits in 100..=599 otherwise; everything else is malformed: connect() fails (not as a rejection) and the connection is closed with H3_MESSAGE_ERROR; in-range integers written with leading zeros are unconstrained. e2e-reserved-headers: ConnectOptions::add_header with each reserved pseudo-header, near-reserved names and reserved names in other letter cases (:Path, :AUTHORITY, random case subsets), on URLs with and without a query and a fragment; oracle: ReservedHeader error exactly for the five reserved names; other names reach the server intact; whatever reaches the server application carries :method CONNECT, :scheme https, :protocol webtransport and exactly the URL's authority and path-plus-query (a case variant may be refused, fail or pass as an ordinary field, but never changes those five). Every run is non-trivial; distinct = distinct plan hashes. Not covered here (pure functions): the numeric TryFrom<u8|u16|u32|u64> constructors.",
+        rule: "raw-request-admission: raw client sends a request whose five pseudo-headers are each right / missing / wrong (exhaustive grid of 11x7x8x3x3 = 5544 combinations, the wrong values including other letter cases of the method, prefixes, suffixed and empty values, then sampled single-defect requests with arbitrary extra fields and all four QPACK encoding styles); oracle: offered to the application iff CONNECT + https + webtransport + authority + path (authority, path and extras delivered intact); otherwise that stream is refused with STOP_SENDING H3_REQUEST_REJECTED or H3_MESSAGE_ERROR, the application never sees it, and a following valid request on the same connection establishes a session that ends cleanly. raw-response-status: raw server answers the real client's CONNECT with a :status string — quick: every integer 0..1099 and 65436..65535, thorough: every integer 0..65535; plus signs, spaces, empty, non-digits, non-ASCII digits, huge numbers, and no :status at all; oracle: session iff a three-digit integer in 200..=299; 'session rejected' iff three digits in 100..=599 otherwise; everything else is malformed: connect() fails (not as a rejection) and the connection is closed with H3_MESSAGE_ERROR; in-range integers written with leading zeros are unconstrained. e2e-reserved-headers: ConnectOptions::add_header with each reserved pseudo-header, near-reserved names and reserved names in other letter cases (:Path, :AUTHORITY, random case subsets), on URLs with and without a query and a fragment; oracle: ReservedHeader error exactly for the five reserved names; other names reach the server intact; whatever reaches the server application carries :method CONNECT, :scheme https, :protocol webtransport and exactly the URL's authority and path-plus-query (a case variant may be refused, fail or pass as an ordinary field, but never changes those five). Every run is non-trivial; distinct = distinct plan hashes. Not covered here (pure functions): the numeric TryFrom<u8|u16|u32|u64> constructors.",
         assumptions: vec![
             "raw peer + reference codec are harness code; current-thread runtime; fault-free network",
             "the numeric StatusCode constructors are pure functions and are not simulation targets",
